@@ -352,6 +352,48 @@ def pq_multiset_hook():
     return hook
 
 
+def d3_taint_hook():
+    """deque: known finding D3 judged on the REAL state.  The generators keep front-half insertions out of their streams
+    by simulating sizes, but the runner's refusal enumeration (and any imprecision of that simulation) can shift a later
+    `add_at` / `it_add` / `zit_add` into the D3 region.  This hook reads the C side's own size and cursor: when a
+    successful insertion executed at a position with 1 <= index and index + 1 <= size_before / 2 it marks the history from
+    that operation on (`d3-taint`, never a violation itself); L1 content differences at or after the mark are consequences
+    of the recorded finding (the model, which mirrors the code, still has to agree at L3)."""
+    def hook(h, ops, c_lines):
+        prev = None
+        for i, op in enumerate(ops):
+            if i >= len(c_lines):
+                break
+            cs = vlib.sections(c_lines[i])
+            name = op.split()[0]
+            if prev is not None and name in ("add_at", "it_add", "zit_add") and re.search(r"\bst=0\b", cs[0]):
+                idxs = []
+                if name == "add_at":
+                    mo = re.search(r"\bo=(\d+)", op)
+                    k = mo.group(1) if mo else "0"
+                    a = op.split()
+                    if len(a) >= 3 and a[2].isdigit():
+                        idxs.append((k, int(a[2])))
+                elif name == "it_add":
+                    mi = re.search(r"\bit=(\d+):(\d+):", prev)
+                    if mi:
+                        idxs.append((mi.group(1), int(mi.group(2))))
+                else:
+                    mz = re.search(r"\bzit=(\d+):(\d+):(\d+):", prev)
+                    if mz:
+                        idxs += [(mz.group(1), int(mz.group(3))), (mz.group(2), int(mz.group(3)))]
+                for k, idx in idxs:
+                    ms = re.search(rf"\bd{k}\.size=(\d+)", prev)
+                    if ms and 1 <= idx and idx + 1 <= int(ms.group(1)) // 2:
+                        return [Diff("d3-taint", h, i, op, f"insertion at front-half position {idx} of {ms.group(1)} elements (finding D3)", "L0")]
+                    # the second insertion of an aliased zip sees one more element
+                    if name == "zit_add" and ms and 1 <= idx and idx + 1 <= (int(ms.group(1)) + 1) // 2:
+                        return [Diff("d3-taint", h, i, op, f"zip insertion at front-half position {idx} (finding D3)", "L0")]
+            prev = cs[1]
+        return []
+    return hook
+
+
 def run_container(P, pid, cspec, tier, seed):
     """all streams of one container; returns dict(stats, violations, fidelity, samples, problems)"""
     container = cspec["container"]
@@ -375,6 +417,9 @@ def run_container(P, pid, cspec, tier, seed):
         runner.hooks.append(trim_hook(container))
     if container == "pqueue":
         runner.hooks.append(pq_multiset_hook())
+    if container == "deque":
+        runner.hooks.append(d3_taint_hook())
+    d3_tainted = [0]
     focus = cspec.get("focus")
     batches = []
     late = []        # the property-defining batches (refusal enumeration, pool-backed re-runs) go right after the corpus
@@ -453,6 +498,10 @@ def run_container(P, pid, cspec, tier, seed):
                 unk = [d for d in diffs if d.kind == "unknown-op"]
                 if unk and len(out["no_verdict"]) < 3:
                     out["no_verdict"].append(f"{container}/{bname}: generated operation unknown to the harness: {unk[0].op!r}")
+                taint = [d.line for d in diffs if d.kind == "d3-taint"]
+                if taint:
+                    d3_tainted[0] += 1
+                    diffs = [d for d in diffs if not (d.layer == "L1" and d.kind == "obs" and d.line >= min(taint))]
                 rel = [d for d in diffs if relevant(P, container, d)]
                 hard = [d for d in rel if d.layer in ("L1", "L2")]
                 soft = [d for d in rel if d.layer == "L3"]
@@ -498,7 +547,8 @@ def run_container(P, pid, cspec, tier, seed):
         except Exception as e:
             out["problems"].append(f"{container}/coverage: {str(e)[:200]}")
     out["stats"] = dict(runner.stats(), streams=[(b, len(h)) for b, h in batches], focus=focus,
-                        truncated_by_time_budget=[f"{b}: ran {lo} of {n} histories" for b, lo, n in truncated])
+                        truncated_by_time_budget=[f"{b}: ran {lo} of {n} histories" for b, lo, n in truncated],
+                        histories_tainted_by_known_finding_D3=d3_tainted[0])
     out["samples"] = runner.samples
     return out
 
